@@ -406,7 +406,7 @@ func (fx *FuncCtx) zeroRegion(st *State, sv SliceV) {
 	if !ok {
 		return
 	}
-	row := Term{fmt.Sprintf("((as const %s) %s)", ArraySort(SInt, es), z.S), ArraySort(SInt, es)}
+	row := fx.constArray(es, z)
 	st.heap[name] = fx.define(name, Store(m, sv.Rid, row))
 }
 
@@ -986,4 +986,27 @@ func (fx *FuncCtx) runDefers(st *State) {
 		fx.evalCall(st, ds[i].Call)
 	}
 	fx.defers = ds
+}
+
+// constArray: an array holding z everywhere. For interpreted element sorts the
+// SMT-LIB constant array is used; for uninterpreted sorts (opaque floats) cvc5
+// rejects a non-value element, so a named array with a defining axiom is used.
+func (fx *FuncCtx) constArray(es Sort, z Term) Term {
+	as := ArraySort(SInt, es)
+	if es == SInt || es == SBool || fx.ieee && (es == SF64 || es == SF32) {
+		return Term{fmt.Sprintf("((as const %s) %s)", as, z.S), as}
+	}
+	name := "constarr_" + smtName(string(es)) + "_" + smtName(z.S)
+	if !fx.declSet["constarr:"+name] {
+		fx.declSet["constarr:"+name] = true
+		fx.permDecls = append(fx.permDecls, fmt.Sprintf("(declare-const %s %s)", name, as))
+		fx.globalFacts = append(fx.globalFacts, Term{fmt.Sprintf("(forall ((q_ca Int)) (= (select %s q_ca) %s))", name, z.S), SBool})
+		// the element constant must be declared permanently as well
+		for _, d := range fx.decls {
+			if strings.HasPrefix(d, "(declare-const "+z.S+" ") {
+				fx.permDecls = append([]string{d}, fx.permDecls...)
+			}
+		}
+	}
+	return Term{name, as}
 }
